@@ -154,8 +154,8 @@ func (a *asmCheck) extract(fd *ast.FuncDecl, loop bool, cases map[[2]int]ast.Stm
 }
 
 type target struct {
-	node    int   // node whose container is assigned (1-based)
-	derefs  []int // opt nodes traversed
+	node    int         // node whose container is assigned (1-based)
+	derefs  []int       // opt nodes traversed
 	indexed map[int]int // rep node pos -> ind index used
 	err     string
 }
